@@ -238,6 +238,8 @@ def main():
         if not isinstance(ob.goal, bool) and ob.kind in ("ensures", "lemma", "loop"):
             groups.setdefault(ob.name.split("@")[0], []).append(ob.name in vac)
     all_vac = [g for g, flags in groups.items() if all(flags)]
+    # when part of the scenario left the verifier's reach the surviving paths may legitimately all be infeasible
+    all_vac = [g for g in all_vac if not any(lbl and (lbl in g or g.split("#")[0] in lbl) for lbl, _ in S.unsupported)]
     if all_vac:
         print(f"CHECKER-CRASH property={prop}: vacuous hypotheses on every path of {all_vac[:5]}")
         return 3
@@ -298,17 +300,26 @@ def main():
     # ---- native bounded stand-in / runtime contracts (labelled bounded, never counted as proof)
     standin = None
     if not a.no_native and os.path.exists(os.path.join(HERE, "native", f"{prop}.py")):
-        out_json = os.path.join(HERE, ".run", f"standin_{prop}.json")
+        out_json = os.path.join(HERE, ".run", f"standin_{prop}_{os.getpid()}.json")      # per process: several runs of one property may overlap
         try:
             p = run_native(["standin", prop, "--tier", a.tier, "--seed", str(seed), "--out", out_json],
                            timeout=3000 if a.tier == "quick" else 14000)
-            if p.returncode not in (0, 1):
+            if p.returncode == 3 and os.path.exists(out_json):
+                os.unlink(out_json)
+            if p.returncode not in (0, 1, 3):
                 print(p.stdout[-3000:])
                 print(p.stderr[-3000:])
                 print(f"CHECKER-CRASH property={prop}: native stand-in crashed (exit {p.returncode})")
                 return 3
-            with open(out_json) as f:
-                standin = json.load(f)
+            if not os.path.exists(out_json):
+                # the stand-in harness itself failed on this tree (e.g. its scripted generator does not offer what the code now
+                # calls): that says nothing about the property
+                print(f"STANDIN-UNAVAILABLE property={prop} the native stand-in did not complete: {(p.stderr or p.stdout).strip().splitlines()[-1][:200] if (p.stderr or p.stdout).strip() else 'no output'}")
+                S.unsupported.append((f"native stand-in of {prop}", "the stand-in harness did not complete on this tree"))
+            else:
+                with open(out_json) as f:
+                    standin = json.load(f)
+                os.unlink(out_json)
         except subprocess.TimeoutExpired:
             print(f"CHECKER-CRASH property={prop}: native stand-in timed out")
             return 3
@@ -498,4 +509,12 @@ def main():
 
 
 if __name__ == "__main__":
-    sys.exit(main())
+    try:
+        rc = main()
+    except SystemExit:
+        raise
+    except BaseException:  # noqa: BLE001   (an internal error must never look like exit 1 = violation)
+        traceback.print_exc()
+        print("CHECKER-CRASH internal error of run_check.py")
+        rc = 3
+    sys.exit(rc)
